@@ -786,14 +786,11 @@ def stream_display(run, rng, thorough):
         mism = [(c, o) for (c, o), m in zip(kept, masks) if m & 1]
         run.oblige('corr:display(computed display/float and box class, exhaustive)', not mism, 'first: %s' % mism[:3])
         bad = [(c, o) for (c, o), m in zip(kept, masks) if m & 2]
-        # the deviations from the CSS table must all be the listed mechanism (inline-table/-flex/-grid blockified to block flow)
-        other = [(c, o) for c, o in bad if not (c['display'] in ('inline-table', 'inline-flex', 'inline-grid', 'inline flex'))]
-        if other:
-            run.fail('computed display differs from the CSS 2.1 9.7 table', {'stream': 'display', 'case': other[0][0],
-                                                                             'impl': other[0][1]}, signature='display-table')
-        elif bad:
-            run.fail('float/absolute/root with display inline-table/-flex/-grid computes to block flow: the inner display type is lost',
-                     {'stream': 'display', 'case': bad[0][0], 'impl': bad[0][1], 'count': len(bad)}, signature=SIG_BLOCKIFY)
+        if bad:
+            run.fail('computed display differs from the table of CSS 2.1 9.7 / CSS Display 3 2.7 (%d combinations): display:%s float:%s '
+                     'position:%s%s computes to %s' % (len(bad), bad[0][0]['display'], bad[0][0]['float'], bad[0][0]['position'],
+                                                       ' on the root element' if bad[0][0]['root'] else '', tuple(bad[0][1]['display'])),
+                     {'stream': 'display', 'case': bad[0][0], 'impl': bad[0][1], 'count': len(bad)}, signature='display-table')
         run.count('display', len(kept), [json.dumps(c, sort_keys=True) for c, _ in kept], samples=[kept[5][0]])
         run.stream_info('display', rule='exhaustive: %d display values x float {none,left,right} x position {static,relative,'
                         'absolute,fixed} x {root element, child of body}' % len(DISPLAYS), deviating_from_css_table=len(bad))
@@ -856,8 +853,6 @@ class Gen:
         if parent_display in ('flex', 'inline-flex', 'grid', 'inline-grid'):
             if d in ('table-column', 'table-column-group'):
                 d = 'block'      # flex/grid items with an internal table display are not blockified (see report): avoided
-            if d == 'inline-table':
-                d = 'table'      # listed finding SIG_FLEX_TABLE (and the TypeError in preferred.min_content_width): one probe
         return d
 
     def element(self, depth, parent_display):
@@ -1126,8 +1121,7 @@ def py_tt(tt, s):
 
 
 def judge_ifc(ifc):
-    """returns None or (kind, expected, actual); kind 'text-known' = the difference is exactly the listed mechanism
-    (the flag is not handed from child to child of an out-of-flow box)"""
+    """returns None or (kind, expected, actual)"""
     items = ifc['items']
     # (U+200B alone: the box element_to_box appends to an empty list item after the processing)
     if any(it[0] == 't' and it[1] is None and not it[5].endswith('::marker') and it[4] != '\u200b' for it in items):
@@ -1145,17 +1139,6 @@ def judge_ifc(ifc):
     tts = set(it[3] for it in items if it[0] == 't')
     same = (e.lower() == a.lower()) if tts - {'none'} else (e == a)
     if not same:
-        if not ifc['host_in_flow']:
-            # what the code does there: every child of the box starts with the flag unset
-            groups = []
-            for r in ref_items:
-                if groups and groups[-1][0][-1] == r[-1]:
-                    groups[-1].append(r)
-                else:
-                    groups.append([r])
-            e2 = phase2(sum((phase1(g) for g in groups), []))
-            if (e2.lower() == a.lower()) if tts - {'none'} else (e2 == a):
-                return ('text-known', e, a)
         return ('text', e, a)
     # text-transform, per text box as the implementation applies it (ASCII words)
     for it in items:
@@ -1194,12 +1177,11 @@ WF_CLAUSES = {1: '_sanity_checks (PROPER_CHILDREN)', 2: 'block container: only b
 
 PROFILES = {
     # everything, judged right after build_formatting_structure only (layout is not run)
-    # (::before/::after that are not inline: listed finding SIG_GEN_BLOCK, one probe)
     'build-any': dict(displays=ALL_DISPLAYS, depth=4, float=.08, abs=.05, fixed=True, pseudo=.12,
-                      pseudo_displays=['inline', 'inline', 'inline', 'none'], render=False),
+                      pseudo_displays=['inline', 'inline', 'block', 'inline-block', 'table-cell', 'none', 'list-item', 'flex'], render=False),
     # laid out: shaped around the crash sites of the unchanged tree (see SHAPING below)
     'render': dict(displays=[d for d in ALL_DISPLAYS], depth=4, float=.06, abs=.04, fixed=False, pseudo=.12,
-                   pseudo_displays=['inline', 'inline', 'inline', 'none'], render=True),
+                   pseudo_displays=['inline', 'inline', 'block', 'inline-block', 'table-cell', 'none', 'list-item', 'flex'], render=True),
 }
 
 
@@ -1295,18 +1277,8 @@ def run_docs(run, stream, docs, render):
                 continue
             kind, e, a = bad
             if kind == 'unprocessed':
-                stats['known:' + SIG_GEN_BLOCK] += 1
-                if stats['known:' + SIG_GEN_BLOCK] > 3:
-                    continue
-                run.fail('text of a ::before/::after box that is not inline never goes through process_whitespace / '
-                         'process_text_transform: %r' % (a,), {'stream': stream, 'html': html, 'ifc': ifc}, signature=SIG_GEN_BLOCK)
-            elif kind == 'text-known':
-                stats['known:' + SIG_WS_OUTFLOW] += 1
-                if stats['known:' + SIG_WS_OUTFLOW] > 3:
-                    continue
-                run.fail('inline content of an out-of-flow box (%s): collapsible spaces are not collapsed across inline '
-                         'boxes: expected %r, box tree has %r' % (ifc['host'], e, a),
-                         {'stream': stream, 'html': html, 'ifc': ifc, 'expected': e, 'got': a}, signature=SIG_WS_OUTFLOW)
+                run.fail('a text box never went through process_whitespace / process_text_transform: %r' % (a,),
+                         {'stream': stream, 'html': html, 'ifc': ifc}, signature='text:unprocessed')
             else:
                 run.fail('text of an inline formatting context is not the white-space-processed text of its source: '
                          'expected %r, box tree has %r (%s)' % (e, a, kind),
@@ -1392,16 +1364,15 @@ PROBE_FLEX_TABLE = '<div style="display:flex"><div style="display:inline-table">
 
 
 def probes(run):
-    """one dedicated document per listed finding of this property that the random streams are shaped around"""
+    """regression probes of two repaired defects (F152, F154)"""
     outs = common.run_impl('impl_c08', 'build_and_render', [dict(html=PROBE_GEN_BLOCK, render=False),
                                                              dict(html=PROBE_FLEX_TABLE, render=False)])
     (st, o) = outs[0]
     if st == 'ok':
         bad = [judge_ifc(i) for i in o['pre']['ifcs']]
-        if any(b and b[0] == 'unprocessed' for b in bad):
-            run.fail('text of a ::before/::after box that is not inline never goes through process_whitespace / '
-                     'process_text_transform: "a   b  " stays as written', {'stream': 'probe', 'html': PROBE_GEN_BLOCK},
-                     signature=SIG_GEN_BLOCK)
+        if any(bad):
+            run.fail('text of a ::before box with display:block is not white-space processed / text-transformed: %s'
+                     % ([b for b in bad if b][0],), {'stream': 'probe', 'html': PROBE_GEN_BLOCK}, signature=SIG_GEN_BLOCK)
     else:
         run.oblige('probe:generated-content', False, str(o))
     (st, o) = outs[1]
